@@ -653,6 +653,37 @@ def _emit_fn(asm, out, unit, kv, block, default_props):
     hintfree = set()
     hints_lost = []
     for t in block:
+        if t.startswith('truncate_at '):
+            # `truncate_at "loop {" => "self.run_loop()"`: only the statements BEFORE the first depth-1 occurrence of the
+            # anchor are verified; everything from there to the end of the body is replaced by the given tail expression
+            # (a stub standing for the rest of the function). Stated in the evidence as an extraction drop.
+            m = re.match(r'truncate_at\s+"((?:[^"\\]|\\.)*)"\s*=>\s*"((?:[^"\\]|\\.)*)"', t)
+            if not m:
+                raise ExtractError("bad truncate_at directive in %s: %s" % (fname, t))
+            anchor_t, tail_t = m.group(1).replace('\\"', '"'), m.group(2).replace('\\"', '"')
+            mask_t = rsx.code_mask(body)
+            pat_t = r'\s*'.join(re.escape(x) for x in re.findall(r'\w+|\S', anchor_t))
+            cut = None
+            for mm in re.finditer(pat_t, body):
+                if not mask_t[mm.start()]:
+                    continue
+                depth_t = 0
+                for kk in range(mm.start()):
+                    if mask_t[kk]:
+                        if body[kk] in '([{':
+                            depth_t += 1
+                        elif body[kk] in ')]}':
+                            depth_t -= 1
+                if depth_t == 1:
+                    cut = mm.start()
+                    break
+            if cut is None:
+                raise ExtractError("anchor lost: %s: truncate_at %r not found at statement level" % (fname, anchor_t))
+            n_dropped = body[cut:].count('\n')
+            body = body[:cut] + tail_t + '\n    }'
+            asm.dropped.append('%s: only the statements before `%s` are verified; the remaining %d lines of the body are replaced by the stub call `%s`'
+                               % (fname, anchor_t, n_dropped, tail_t))
+            continue
         if t.startswith('rewrite '):
             for rule in t.split()[1:]:
                 sig2, body2, n = rw.apply(rule, sig, body)
